@@ -110,8 +110,8 @@ def flow(fn, summaries=None, resolve=None):
                         delta = TOP
                     else:
                         delta += k
-                        if k == -1:
-                            guarded = False
+                        if k == 1:
+                            guarded = False      # leaving a level: the next decrement needs its own test
                         if abs(delta) > 4:
                             delta = TOP
                     continue
@@ -158,7 +158,7 @@ def flow(fn, summaries=None, resolve=None):
                         if dst is not None and v is not None:
                             fd2[dst] = v
                         nd = TOP if (delta == TOP or d == TOP) else delta + d
-                        ng = g if (d != 0 and d != TOP) else (guarded or g)
+                        ng = False if (d != TOP and d > 0) else (guarded or g)
                         push(t.get("t"), (nd, ng, frozenset(fd2.items())))
                     continue
                 if "std::ops::Try::branch" in names and t["args"] and dst is not None:
@@ -283,12 +283,19 @@ def zero_tests(fn):
 
         a, b2, opn = cmpd["a"], cmpd["b"], cmpd["op"]
         zero_when = None  # value of the bool when depth == 0, and when depth >= 1
-        if is_depth(a) and common.const_int(b2) == 0:
-            zero_when = {"Eq": (1, 0), "Ne": (0, 1), "Gt": (0, 1), "Le": (1, 0)}.get(opn)
-        elif is_depth(a) and common.const_int(b2) == 1:
-            zero_when = {"Lt": (1, 0), "Ge": (0, 1)}.get(opn)
-        elif is_depth(b2) and common.const_int(a) == 0:
-            zero_when = {"Eq": (1, 0), "Ne": (0, 1), "Lt": (0, 1), "Ge": (1, 0)}.get(opn)
+        # any comparison of the counter with a small constant that is true (or false) exactly for an exhausted
+        # budget: evaluate it at counter = 0 and at counter = 200 (far from the boundary)
+        def ev(op, x, y):
+            return {"Eq": x == y, "Ne": x != y, "Lt": x < y, "Le": x <= y, "Gt": x > y, "Ge": x >= y}.get(op)
+        ka, kb = common.const_int(a), common.const_int(b2)
+        if is_depth(a) and kb is not None and 0 <= kb <= 2 and ev(opn, 0, kb) is not None:
+            z, big = ev(opn, 0, kb), ev(opn, 200, kb)
+            if z != big:
+                zero_when = (int(z), int(big))
+        elif is_depth(b2) and ka is not None and 0 <= ka <= 2 and ev(opn, ka, 0) is not None:
+            z, big = ev(opn, ka, 0), ev(opn, ka, 200)
+            if z != big:
+                zero_when = (int(z), int(big))
         if zero_when is None:
             continue
 
